@@ -347,6 +347,8 @@ func VerifC27_framing() {
 	vrt.Known("C27-body-bytes-after-1xx-204", !s.head && (s.status/100 == 1 || s.status == 204 && s.w1+s.w2 > 0))
 	// handler-set "Transfer-Encoding: chunked" on a chunked HTTP/1.1 reply is written next to the server's own
 	vrt.Known("C27-handler-te-chunked-duplicated", s.hTE == "chunked" && !s.http10 && !s.head && s.status != 304 && s.status != 204)
+	// an unparsable handler Content-Length is deleted from handlerHeader but not from the snapshot that is written
+	vrt.Known("C27-invalid-handler-content-length-written", s.hCL == "x" && s.http10)
 	out, sent, closeAfter := runC27(s)
 	checkC27(s, out, sent, closeAfter)
 }
